@@ -5,7 +5,7 @@ HERE = os.path.dirname(os.path.dirname(os.path.abspath(__file__)))
 TECH = 'contract-based deductive verification: Verus discharges contracts spliced onto functions lifted mechanically from /repo on every run'
 CLAIMS = {
  'C04': dict(text='Lexical kernel only: property names produced by raw_name_to_ts_field are identifier-like or correctly quoted/escaped string literals for every string; doc blocks are exactly one comment; the file layout is notice, imports, docs, `export` declaration, newline; the import block generate_imports writes is one `import type { A, B } from "spec";` line per specifier (unit gen_imports); the code the derive emits for enum variants and the tag property (13 templates, lifted as functions of their interpolations) produces exactly quote + name + quote in the shape of each representation, which is the literal of the name for every string that needs no escaping (known finding D12 otherwise). Proved for all inputs by Verus on the lifted real text.',
-             note='Not decided: that decl() itself parses as TypeScript as a whole; the wrapper templates with repetitions (joins of fields / flattened members / variants) are decided by registered bounded stand-ins (op:variant_literals, op:flatten_shapes), not by proof; the `format` feature. Trusted: std string contracts, Unicode alphanumerics treated as TS identifier characters.'),
+             note='Not decided: that decl() itself parses as TypeScript as a whole; the wrapper templates with repetitions (joins of fields / flattened members / variants) are decided by registered bounded stand-ins (op:variant_literals, op:flatten_shapes), not by proof; the `format` feature. Known finding D18: the run-time scan for the outer pair of parentheses of a single flattened member also counts parentheses inside documentation. Trusted: std string contracts, Unicode alphanumerics treated as TS identifier characters.'),
  'C05': dict(text='Histories and inputs: merge() is proved to be sorted insertion of the whole new declaration (unit merge) plus the ascending rendering of the union of both import headers, each name once (unit merge_imports); the registry logic of export_and_merge is proved to skip already-exported types, and over a ghost disk model: the first write of a process leaves exactly the generated text in the file, a later write replaces everything after the notice by merge(old file, new text), no other file changes. Unbounded in file size and number of declarations.',
              note='Not decided: thread interleavings (the Mutex argument is dropped by rewrite R6); the closure of merge() that parses an import line back (bounded stand-in: five export histories); declarations containing blank lines or the words `export type ` are outside the well-formedness hypothesis (known finding D7). Trusted: std string/collection contracts, the disk model of File::create / OpenOptions / write_all / read_to_string / seek (spec/std_fs_model.rs), no concurrent writer.'),
  'C06': dict(text='Spelling independence: every export entry point reaches export_to with the canonical form norm(cwd ++ dir ++ output_path) of the target, so the registry key (and file) does not depend on how the directory is spelled or which entry point is used. Proved as call-site preconditions; export_all / export_all_to / export_all_into / Visit::visit hand the configured resp. the given directory down to export_into (token contracts, unit recursion).',
@@ -62,7 +62,7 @@ def main():
             na.append({'property_id': pid, 'reason': 'planned unit not yet brought through the verifier (see DESIGN.md section 11); not claimed until its check runs green'})
     man = {
         'version': 1,
-        'setup_cmd': "python3 -c \"import sys; sys.path.insert(0,'/verif'); from driver import natives; natives.build_replay(); natives.build_probe()\" || true",
+        'setup_cmd': "python3 -c \"import sys; sys.path.insert(0,'/verif'); from driver import natives; natives.build_replay(); natives.build_replay(('no-serde-warnings',)); natives.build_probe()\" || true",
         'hooks': {
             'guard': '--cfg ts_rs_verif',
             'enable': "RUSTFLAGS='--cfg ts_rs_verif' when building the replay program (driver/natives.py); verdicts need no hook (lifting reads the source text)",
